@@ -86,6 +86,20 @@ def vsub(a, b): return [x - y for x, y in zip(a, b)]
 def vnorm(a): return math.sqrt(sum(x * x for x in a))
 def mv(R, v): return [sum(R[3 * i + k] * v[k] for k in range(3)) for i in range(3)]
 
+def cc_conditioning(c):
+    """Sensitivity of the common-normal contact of two smooth convex bodies to a sideways offset of one of them.
+    With R1, R2 the 2x2 matrices of principal radii of curvature at the two axis points (tangent plane, R2 rotated by phi) and d the
+    depth, a sideways offset delta of body 2 tilts the contact normal by theta with (R1 + R2 - d I) theta = delta (first order), moves the
+    point on body 1 by R1 theta and changes the depth only to second order.  Returns (L, Rmax): L = 1/lambda_min(R1 + R2 - d I)
+    (infinite when that matrix is not positive definite: the pair of axis points is then not a locally unique contact)."""
+    i = c['axis']; j, l = (i + 1) % 3, (i + 2) % 3; a, b = c['r1'], c['r2']
+    p1, q1 = a[j] ** 2 / a[i], a[l] ** 2 / a[i]; p2, q2 = b[j] ** 2 / b[i], b[l] ** 2 / b[i]
+    cs, sn = math.cos(c['phi']), math.sin(c['phi'])
+    d = a[i] + b[i] - abs(c['t'])
+    m11 = p1 + cs * cs * p2 + sn * sn * q2 - d; m22 = q1 + sn * sn * p2 + cs * cs * q2 - d; m12 = cs * sn * (p2 - q2)
+    lam = 0.5 * (m11 + m22 - math.sqrt((m11 - m22) ** 2 + 4 * m12 * m12))
+    return (1.0 / lam if lam > 0 else float('inf')), max(p1, q1, p2, q2)
+
 def run_cc(ctx, exe, drv, n):
     FAM = ['spheres-as-ellipsoids', 'ellipsoid/ellipsoid', 'ellipsoid/ellipsoid-rotated-about-axis', 'ellipsoid/Sphere']
     cases = gen_cc(ctx.rng, n); lines = []
@@ -124,21 +138,30 @@ def run_cc(ctx, exe, drv, n):
                 dis += 1
                 if first is None: first = (lines[5 * k], impl, mm, fam)
         # (b)-(d) implementation-only predicates: continuity under 1e-7 sideways offsets, swap symmetry, rigid-motion invariance
-        # the reported surface order depends on the broad phase, so normals are compared as "from A towards B"
-        def differs(a, b, idxA_a, idxA_b, Rq=None, tq=None, tol=2e-6):
+        # the reported surface order depends on the broad phase, so normals are compared as "from A towards B".
+        # Tolerances: the detector's Newton iteration stops at |error vector| <= 1e-12, and a perturbation eps of the relative placement
+        # moves the contact normal by L*eps and the contact point by (1 + Rmax*L)*eps (cc_conditioning).  Same geometry (other order,
+        # common rigid motion: eps = rounding) must agree to 2e-6; a sideways offset delta = 1e-7 may change the normal by 3*L*delta,
+        # the location by 3*(1 + Rmax*L)*delta and the depth by 3*L*delta^2 on top of that.  Configurations with L > 1e3 (the depth
+        # is within 1e-3 of the smallest eigenvalue of R1 + R2, or beyond it: the axis points are no longer a locally unique contact)
+        # are counted but not used for these three predicates.
+        L, Rmax = cc_conditioning(c)
+        def differs(a, b, idxA_a, idxA_b, Rq=None, tq=None, delta=0.0):
             if (a is None) != (b is None): return 'contact %s vs %s' % (a is not None, b is not None)
             if a is None: return None
             na = a['n'] if a['s1'] == idxA_a else [-x for x in a['n']]; nb = b['n'] if b['s1'] == idxA_b else [-x for x in b['n']]; la = a['loc']
             if Rq is not None: na = mv(Rq, na); la = [x + y for x, y in zip(mv(Rq, la), tq)]
-            if abs(a['depth'] - b['depth']) > tol: return 'depth %.9g vs %.9g' % (a['depth'], b['depth'])
-            if vnorm(vsub(na, nb)) > tol * 10: return 'normal (A to B) %s vs %s' % (na, nb)
-            if vnorm(vsub(la, b['loc'])) > tol * 10: return 'location %s vs %s' % (la, b['loc'])
+            if abs(a['depth'] - b['depth']) > 2e-6 + 3 * L * delta * delta: return 'depth %.9g vs %.9g' % (a['depth'], b['depth'])
+            if vnorm(vsub(na, nb)) > 2e-5 + 3 * L * delta: return 'normal (A to B) %s vs %s (allowed %.3g, sensitivity L = %.4g)' % (na, nb, 2e-5 + 3 * L * delta, L)
+            if vnorm(vsub(la, b['loc'])) > 2e-5 + 3 * (1 + Rmax * L) * delta: return 'location %s vs %s (allowed %.3g)' % (la, b['loc'], 2e-5 + 3 * (1 + Rmax * L) * delta)
             return None
         near_touch = abs(abs(c['t']) - c['r1'][c['axis']] - c['r2'][c['axis']]) < 1e-5
         iA = c['order']
-        if pred is None and not near_touch:
+        if L > 1e3: hist['ill_conditioned_skipped'] = hist.get('ill_conditioned_skipped', 0) + 1
+        elif not near_touch: hist['max_sensitivity_used'] = max(hist.get('max_sensitivity_used', 0.0), L)
+        if pred is None and not near_touch and L <= 1e3:
             for j in (1, 2):
-                d = differs(exact, res[j][0], iA, iA)
+                d = differs(exact, res[j][0], iA, iA, delta=1e-7)
                 if d and pred is None: pred = (lines[5 * k], 'ConvexConvex:continuity-under-1e-7-offset', '%s, centres exactly on axis %d vs offset by 1e-7 sideways: %s' % (fam, c['axis'], d))
             d = differs(exact, res[3][0], iA, 1 - iA)
             if d and pred is None: pred = (lines[5 * k], 'ConvexConvex:swap-symmetry', '%s: the two surfaces in the other order: %s' % (fam, d))
